@@ -148,12 +148,17 @@ class C06(Check):
     def install(self, ctx):
         ST.install(ctx)
         ctx.dynamic_call_hook = dynamic_call
+        from checks import C17
+        C17.CHECK.install(ctx)
 
     def modular(self):
         return {f"{ST.FASTJSON}::dumps": ST.DumpsModular()}
 
     def contracts(self):
-        return [StdinWriter()]
+        from checks import C17
+        # "a message that cannot be serialised is dropped alone" presupposes that every JSON value CAN be serialised:
+        # fast_json.dumps' dispatch (fallback to the stdlib when orjson refuses a value) is re-verified here (C17)
+        return [StdinWriter(), C17.Dumps(True), C17.Dumps(False)]
 
     def loop_invariants(self):
         return {(f"{STDIO}::StdioClient._stdin_writer", 0): loop_inv}
